@@ -11,6 +11,9 @@ func init() {
 	icb := func(driver string, shards int, p string, budget float64) Scenario {
 		return Scenario{Name: "C05/icb-" + driver, Build: schedCoarse, Pkg: "internal", Test: "TestVerif_C05Icb", Params: "driver=" + driver + ",P=" + p, Shards: shards, BudgetS: budget}
 	}
+	hyb := func(driver string, shards int, pp string, budget float64) Scenario {
+		return Scenario{Name: "C05/hybrid-" + driver, Build: schedCoarse, Pkg: "internal", Test: "TestVerif_C05_Hybrid", Params: "driver=" + driver + ",P=" + pp, Shards: shards, BudgetS: budget}
+	}
 	register(&Check{
 		ID: "C05", Level: "model_checking", Engine: "E2-BFS", DesignRef: "DESIGN.md §4 C05, §3.3",
 		Technique: "explicit-state breadth-first search over delete/evict/expire overlaps on the real instrumented Store (big steps) with a recording removal listener; notification accounting checked after draining every reachable state",
@@ -21,6 +24,7 @@ func init() {
 		Quick: []Scenario{
 			mk("m1", 8, "12", 60), mk("m1-ttl", 16, "9", 60), mk("m2-3c", 16, "9", 60), mk("m1-pool", 8, "12", 60), mk("m1-pool-ttl", 8, "9", 60), mk("m1-pool-reuse", 4, "11", 60),
 			icb("del-vs-evict", 8, "2", 60), icb("del-vs-expire", 8, "2", 60), icb("del-vs-evict-pool", 8, "2", 60), icb("update-vs-evict", 8, "2", 60), icb("update-vs-expire", 8, "2", 60),
+			hyb("HY1-delete-vs-worker", 4, "2", 60), hyb("HY1p-delete-vs-worker-pool", 6, "2", 60), hyb("HY2p-delete-set-vs-worker-pool", 6, "2", 60),
 		},
 		Thorough: []Scenario{
 			{Name: "C05/bfs-m1-3clients", Build: sched, Pkg: "internal", Test: "TestVerif_C05", Params: "cfg=m1,depth=13,clients=3,ops=2", Shards: 16, BudgetS: 600},
